@@ -241,8 +241,9 @@ func renderGo(ms *yang.Modules, errs []error) string {
 			}
 			items = append(items, m.FullName()+">"+ownerText(ms, m)+":"+id.Name+"="+strings.Join(vs, ","))
 		}
-		// identityref nodes at the top level: leaf and leaf-list; written directly, as union
-		// member, or through a typedef of the same (sub)module
+		// identityref / union nodes at the top level of m's entry: own leaves and leaf-lists and
+		// those of a grouping of m that a top-level uses names; the type written directly or
+		// reached through typedefs of m
 		type node struct {
 			name string
 			typ  *yang.Type
@@ -254,10 +255,40 @@ func renderGo(ms *yang.Modules, errs []error) string {
 		for _, l := range m.LeafList {
 			nodes = append(nodes, node{l.Name, l.Type})
 		}
+		for _, u := range m.Uses {
+			for _, g := range m.Grouping {
+				if g.Name == u.Name {
+					for _, l := range g.Leaf {
+						nodes = append(nodes, node{l.Name, l.Type})
+					}
+					for _, l := range g.LeafList {
+						nodes = append(nodes, node{l.Name, l.Type})
+					}
+					break
+				}
+			}
+		}
+		member := func(yt *yang.YangType) string {
+			if yt.IdentityBase == nil {
+				return "-"
+			}
+			ib := yt.IdentityBase
+			vs := make([]string, len(ib.Values))
+			for i, v := range ib.Values {
+				vs[i] = vtx(v)
+			}
+			// which identity OBJECT (by the revision of the (sub)module that declares it) and the
+			// list that is seen through it
+			got := yang.RootNode(ib).FullName() + ">" + vtx(ib) + "~" + strings.Join(vs, ",")
+			if !known[ib] {
+				// the type must point at an identity of the loaded modules, so that it sees its list
+				got = "COPY!" + got
+			}
+			return got
+		}
 		var e *yang.Entry
 		for _, nd := range nodes {
-			form := identityrefForm(m, nd.typ)
-			if form == 0 {
+			if !identityrefInterest(m, nd.typ, 8) {
 				continue
 			}
 			if e == nil {
@@ -265,29 +296,20 @@ func renderGo(ms *yang.Modules, errs []error) string {
 			}
 			got := "-"
 			if le := e.Dir[nd.name]; le != nil && le.Type != nil {
-				yt := le.Type
-				if form == 2 {
-					yt = nil
+				switch le.Type.Kind {
+				case yang.Yidentityref:
+					got = member(le.Type)
+				case yang.Yunion:
+					// every member of kind identityref that the resolved union holds
+					var ms []string
 					for _, mt := range le.Type.Type {
 						if mt.Kind == yang.Yidentityref {
-							yt = mt
-							break
+							ms = append(ms, member(mt))
 						}
 					}
-				}
-				if yt != nil && yt.IdentityBase != nil {
-					ib := yt.IdentityBase
-					vs := make([]string, len(ib.Values))
-					for i, v := range ib.Values {
-						vs[i] = vtx(v)
-					}
-					// which identity object (by the revision of the (sub)module that declares it) and
-					// the list that is seen through it
-					got = yang.RootNode(ib).FullName() + ">" + vtx(ib) + "~" + strings.Join(vs, ",")
-					if !known[ib] {
-						// the type must point at the identity itself, so that it sees the same list
-						got = "COPY!" + got
-					}
+					got = strings.Join(ms, "|")
+				default:
+					got = "?kind=" + le.Type.Kind.String()
 				}
 			}
 			items = append(items, "@"+m.FullName()+":"+nd.name+"="+got)
@@ -297,33 +319,23 @@ func renderGo(ms *yang.Modules, errs []error) string {
 	return "ok" + encAll(items) + " ;" + encAll(dedupSorted(errLines))
 }
 
-// identityrefForm: 0 = the node's type is no identityref in the sense compared here, 1 = written
-// directly, 2 = union with an identityref member, 3 = a typedef of m (named without prefix) whose
-// type is identityref.  Mirrors Goyang.Model.Identity.identityrefTypeOf.
-func identityrefForm(m *yang.Module, t *yang.Type) int {
-	if t == nil {
-		return 0
+// identityrefInterest: the type statement t, written in m, is an identityref or a union, directly
+// or through typedefs of m named without prefix (chains up to depth).  Mirrors
+// Goyang.Model.Identity.tyView != other.
+func identityrefInterest(m *yang.Module, t *yang.Type, depth int) bool {
+	if t == nil || depth == 0 {
+		return false
 	}
 	switch t.Name {
-	case "identityref":
-		return 1
-	case "union":
-		for _, mt := range t.Type {
-			if mt.Name == "identityref" {
-				return 2
-			}
-		}
-		return 0
+	case "identityref", "union":
+		return true
 	}
 	for _, td := range m.Typedef {
 		if td.Name == t.Name {
-			if td.Type != nil && td.Type.Name == "identityref" {
-				return 3
-			}
-			return 0
+			return identityrefInterest(m, td.Type, depth-1)
 		}
 	}
-	return 0
+	return false
 }
 
 // identityError is the projection of Process' errors C11 speaks about: unresolved identity bases
@@ -536,8 +548,15 @@ type gLeaf struct {
 	Name    string
 	Base    string
 	HasBase bool
-	Form    int // 0 leaf, 1 leaf-list, 2 union member, 3 through a typedef of the same (sub)module
+	// 0 leaf, 1 leaf-list, 2 union { string; identityref }, 3 through a typedef of the same (sub)module;
+	// with More (2-3 identityref members in all): 4 union on a leaf, 5 union on a leaf-list, 6 typedef
+	// chain t2 -> t1 -> union, 7 union of typedef'd identityrefs (one behind a chain), 8 union leaf in
+	// a grouping that the root uses
+	Form int
+	More []string // further bases (forms 4..8)
 }
+
+func (l gLeaf) idref(base string) string { return fmt.Sprintf("type identityref { base %s; }", base) }
 
 type gRoot struct {
 	Name, Prefix string
@@ -585,6 +604,39 @@ func (r *gRoot) text() string {
 		ty := "type identityref;"
 		if l.HasBase {
 			ty = fmt.Sprintf("type identityref { base %s; }", l.Base)
+		}
+		all := append([]string{l.Base}, l.More...)
+		var members strings.Builder
+		for _, b := range all {
+			members.WriteString(" " + l.idref(b))
+		}
+		switch l.Form {
+		case 4:
+			fmt.Fprintf(&sb, "  leaf %s { type union {%s } }\n", l.Name, members.String())
+			continue
+		case 5:
+			fmt.Fprintf(&sb, "  leaf-list %s { type union {%s } }\n", l.Name, members.String())
+			continue
+		case 6:
+			fmt.Fprintf(&sb, "  typedef u1-%s { type union {%s } }\n  typedef u2-%s { type u1-%s; }\n  leaf %s { type u2-%s; }\n",
+				l.Name, members.String(), l.Name, l.Name, l.Name, l.Name)
+			continue
+		case 7:
+			var mt strings.Builder
+			for k, b := range all {
+				fmt.Fprintf(&sb, "  typedef m%d-%s { %s }\n", k, l.Name, l.idref(b))
+				if k == 0 {
+					fmt.Fprintf(&sb, "  typedef c-%s { type m0-%s; }\n", l.Name, l.Name)
+					fmt.Fprintf(&mt, " type c-%s;", l.Name)
+				} else {
+					fmt.Fprintf(&mt, " type m%d-%s;", k, l.Name)
+				}
+			}
+			fmt.Fprintf(&sb, "  leaf %s { type union {%s } }\n", l.Name, mt.String())
+			continue
+		case 8:
+			fmt.Fprintf(&sb, "  grouping g-%s { leaf %s { type union {%s } } }\n  uses g-%s;\n", l.Name, l.Name, members.String(), l.Name)
+			continue
 		}
 		switch l.Form {
 		case 1:
@@ -711,8 +763,14 @@ func smallCase(n int, edges uint32, assign, layout, naming, samePrefix int) tcas
 	}
 	// one identityref leaf, declared where the last identity is, pointing at identity 0
 	roots[where[n-1]].Leaves = []gLeaf{{Name: "ref", Base: ref(n-1, 0), HasBase: true}}
+	// and a union with one identityref member per identity (homonyms of the two modules included)
+	u := gLeaf{Name: "uref", Base: ref(n-1, 0), HasBase: true, Form: 4 + int(edges%2)*4} // on a leaf | in a used grouping
+	for k := 1; k < n; k++ {
+		u.More = append(u.More, ref(n-1, k))
+	}
+	roots[where[n-1]].Leaves = append(roots[where[n-1]].Leaves, u)
 	return tcase{Tag: fmt.Sprintf("small n=%d edges=%#x assign=%d layout=%d naming=%d sameOwnPrefix=%d", n, edges, assign, layout, naming, samePrefix),
-		Files: filesOf(roots), Runs: 3}
+		Files: filesOf(roots), Runs: 2} // + second Process, history and ToEntry-first runs: five processings per set
 }
 
 func enumerateSmall(maxAll, maxDag int, sample func() bool) []tcase {
@@ -757,6 +815,33 @@ type rIdent struct {
 	root  int
 	group int // index of the owning module, -1 when the owner is not loaded
 	name  string
+}
+
+// moreBases: one or two further union members beside identity t: identities of the same name in
+// other modules first (their lists differ), then any.
+func moreBases(rng *rand.Rand, ids []rIdent, t int, ref func(k int) string) []string {
+	var homonyms, others []int
+	for k := range ids {
+		switch {
+		case k == t:
+		case ids[k].name == ids[t].name && ids[k].group != ids[t].group:
+			homonyms = append(homonyms, k)
+		default:
+			others = append(others, k)
+		}
+	}
+	rng.Shuffle(len(homonyms), func(i, j int) { homonyms[i], homonyms[j] = homonyms[j], homonyms[i] })
+	rng.Shuffle(len(others), func(i, j int) { others[i], others[j] = others[j], others[i] })
+	pick := append(homonyms, others...)
+	n := 1 + rng.Intn(2)
+	var out []string
+	for _, k := range pick {
+		if len(out) == n {
+			break
+		}
+		out = append(out, ref(k))
+	}
+	return out
 }
 
 func genRandom(rng *rand.Rand, idx int, hist bool) tcase {
@@ -960,6 +1045,17 @@ func genRandom(rng *rand.Rand, idx int, hist bool) tcase {
 		default:
 			t := rng.Intn(len(ids))
 			lf.Base = ref(from, ids[t].group, ids[t].name)
+			if rng.Intn(2) == 0 {
+				// a union of 2-3 identityrefs, homonyms in other modules first
+				lf.Form = 4 + rng.Intn(5)
+				lf.More = moreBases(rng, ids, t, func(k int) string { return ref(from, ids[k].group, ids[k].name) })
+				if rng.Intn(12) == 0 {
+					lf.More = append(lf.More, lf.Base) // the same base twice: one member is kept
+				}
+				if rng.Intn(15) == 0 {
+					lf.More = append(lf.More, "nosuch")
+				}
+			}
 		}
 		roots[from].Leaves = append(roots[from].Leaves, lf)
 	}
@@ -1043,9 +1139,11 @@ func genRandom(rng *rand.Rand, idx int, hist bool) tcase {
 			t := cand[rng.Intn(len(cand))]
 			ri := ids[t].root
 			R := roots[ri]
-			if len(R.Revisions) == 0 {
+			if len(R.Revisions) == 0 && rng.Intn(2) == 0 {
 				R.Revisions = []string{"2020-01-01"}
 			}
+			// else R stays without revision: the revision that arrives later takes over its name
+			// altogether (an unrevisioned module or submodule ranks below every revision)
 			for form := 0; form < 4; form++ {
 				from := rng.Intn(len(roots))
 				if form == 0 && len(roots) > 1 {
@@ -1056,9 +1154,41 @@ func genRandom(rng *rand.Rand, idx int, hist bool) tcase {
 				roots[from].Leaves = append(roots[from].Leaves, gLeaf{Name: fmt.Sprintf("h%d", form), HasBase: true, Form: form,
 					Base: ref(from, ids[t].group, ids[t].name)})
 			}
+			mf := rng.Intn(len(roots))
+			roots[mf].Leaves = append(roots[mf].Leaves, gLeaf{Name: "h4", HasBase: true, Form: 4 + rng.Intn(5),
+				Base: ref(mf, ids[t].group, ids[t].name),
+				More: moreBases(rng, ids, t, func(k int) string { return ref(mf, ids[k].group, ids[k].name) })})
 			R2 := *R
 			R2.Revisions = append([]string{"2023-03-03"}, R.Revisions...)
 			R2.Idents = append([]gIdent(nil), R.Idents...)
+			// the newer text may have DROPPED or RENAMED identities (preferably ones that have a base,
+			// rarely the referenced one): their keys must vanish from the lists of their bases
+			if p := rng.Intn(100); p < 60 && len(R2.Idents) > 0 {
+				var withBase, any []int
+				for k, id := range R2.Idents {
+					if id.Name == ids[t].name && rng.Intn(8) != 0 {
+						continue
+					}
+					any = append(any, k)
+					if len(id.Bases) > 0 {
+						withBase = append(withBase, k)
+					}
+				}
+				pool := withBase
+				if len(pool) == 0 || rng.Intn(5) == 0 {
+					pool = any
+				}
+				if len(pool) > 0 {
+					d := pool[rng.Intn(len(pool))]
+					if p < 40 {
+						R2.Idents = append(append([]gIdent(nil), R2.Idents[:d]...), R2.Idents[d+1:]...)
+					} else {
+						ren := R2.Idents[d]
+						ren.Name = "renamed"
+						R2.Idents[d] = ren
+					}
+				}
+			}
 			if rng.Intn(3) != 0 {
 				R2.Idents = append(R2.Idents, gIdent{Name: "newer", Bases: []string{ids[t].name}})
 			}
@@ -1109,6 +1239,27 @@ func seedCases() []tcase {
 		return tc
 	}
 	return []tcase{
+		mk("union of identityrefs on homonymous identities of two modules with the same own prefix",
+			`module optics { namespace "urn:optics"; prefix acme; identity KIND; identity LASER { base KIND; } }`,
+			`module power { namespace "urn:power"; prefix acme; identity KIND; identity PSU { base KIND; } }`,
+			`module user { namespace "urn:user"; prefix u; import optics { prefix o; } import power { prefix p; }
+			   typedef t-o { type identityref { base o:KIND; } } typedef t-p { type identityref { base p:KIND; } } typedef t-pp { type t-p; }
+			   typedef both { type union { type identityref { base o:KIND; } type identityref { base p:KIND; } } } typedef both2 { type both; }
+			   grouping g { leaf in-grouping { type union { type identityref { base p:KIND; } type identityref { base o:KIND; } type identityref { base p:KIND; } } } }
+			   uses g;
+			   leaf kind { type union { type identityref { base o:KIND; } type identityref { base p:KIND; } } }
+			   leaf-list kinds { type union { type string; type identityref { base o:KIND; } type identityref { base p:KIND; } } }
+			   leaf via-typedefs { type union { type t-o; type t-pp; } }
+			   leaf via-chain { type both2; } }`),
+		mkH("history: unrevisioned module superseded by a revision that dropped and renamed identities", 2,
+			`module kinds { namespace "urn:kinds"; prefix k; identity KIND; }`,
+			`module vendor { namespace "urn:vendor"; prefix v; import kinds { prefix k; } identity LEGACY { base k:KIND; } identity CURRENT { base k:KIND; } identity OLDNAME { base CURRENT; } leaf l { type identityref { base k:KIND; } } }`,
+			`module vendor { namespace "urn:vendor"; prefix v; import kinds { prefix k; } revision 2024-01-01; identity CURRENT { base k:KIND; } identity NEWNAME { base CURRENT; } leaf l { type identityref { base k:KIND; } } }`),
+		mkH("history: later revision of an included submodule dropped an identity", 3,
+			`module kinds { namespace "urn:kinds"; prefix k; identity KIND; }`,
+			`module vendor { namespace "urn:vendor"; prefix v; include vendor-ids; leaf l { type union { type identityref { base CURRENT; } type identityref { base v:CURRENT; } } } }`,
+			`submodule vendor-ids { belongs-to vendor { prefix v; } import kinds { prefix k; } revision 2020-01-01; identity LEGACY { base k:KIND; } identity CURRENT { base k:KIND; } identity SUB { base LEGACY; } }`,
+			`submodule vendor-ids { belongs-to vendor { prefix v; } import kinds { prefix k; } revision 2024-01-01; identity CURRENT { base k:KIND; } }`),
 		mkH("history: newer revision of the module that declares the base (identityref direct, leaf-list, union, typedef)", 2,
 			`module base { namespace "urn:base"; prefix b; revision 2020-01-01; identity BASE; identity OLD { base BASE; } }`,
 			`module user { namespace "urn:user"; prefix u; import base { prefix b; } identity MINE { base b:BASE; }
@@ -1492,7 +1643,7 @@ func main() {
 	res.Evaluations = nCases
 	res.DistinctNontrivial = nNontrivial
 	res.Exhaustive = true
-	res.Rule = "source sets = corpus + seed witnesses + COMPLETE enumeration of small graphs (all directed graphs incl. self-loops on <= 3 identities and all DAGs on 4 identities; every assignment of the identities to two roots; roots = two modules importing each other | module + included submodule; distinct names | equal names across the two modules; the two modules with different | the same own prefix; bases written with and without prefix; one identityref leaf) + seeded random schemas (1-3 modules, 0-3 submodules included directly / by another submodule / by a foreign module / by nobody / belonging to an absent module, include cycles, 1-12 identities with 0-3 bases, names from a pool with upper/lower case and punctuation, own prefixes from a pool of two (modules often share one), import prefixes independent and legal by default, rarely clashing, names reused across modules, revisions and revision-dates, cycles, dangling and unknown-prefix bases, duplicate statements, missing imports/includes, bases and identityrefs in submodules under a prefix that only the owner or a sibling submodule imports (also with the submodule binding that prefix to another module), identityref leaves, leaf-lists, union members and typedef'd identityrefs) + seeded histories (such a schema, then a newer revision of a module or submodule that declares a referenced identity, with identityrefs of all four forms naming it). Every set: several fresh Modules under permuted load orders, all Go results must be equal, a second Process, a history on one Modules (part of the texts, Process, the rest, Process) and ToEntry-before-Process must end in the same result (identityref items name the identity OBJECT by the revision that declares it and carry the list seen through it); Go result = model result (under two map-order oracles); specification evaluated on the Go result. exhaustive refers to the small-graph space. distinct_nontrivial = distinct source sets whose Go result has an identity with a non-empty list or an identity/cycle error"
+	res.Rule = "source sets = corpus + seed witnesses + COMPLETE enumeration of small graphs (all directed graphs incl. self-loops on <= 3 identities and all DAGs on 4 identities; every assignment of the identities to two roots; roots = two modules importing each other | module + included submodule; distinct names | equal names across the two modules; the two modules with different | the same own prefix; bases written with and without prefix; one identityref leaf) + seeded random schemas (1-3 modules, 0-3 submodules included directly / by another submodule / by a foreign module / by nobody / belonging to an absent module, include cycles, 1-12 identities with 0-3 bases, names from a pool with upper/lower case and punctuation, own prefixes from a pool of two (modules often share one), import prefixes independent and legal by default, rarely clashing, names reused across modules, revisions and revision-dates, cycles, dangling and unknown-prefix bases, duplicate statements, missing imports/includes, bases and identityrefs in submodules under a prefix that only the owner or a sibling submodule imports (also with the submodule binding that prefix to another module), identityref leaves, leaf-lists, unions of 1-4 identityrefs (homonymous identities of modules with one own prefix first; on leaf, leaf-list, behind typedef chains, over typedef'd members, in a used grouping) and typedef'd identityrefs) + seeded histories (such a schema, then a newer revision of a module or submodule that declares a referenced identity - also superseding an UNREVISIONED text, and often with an identity dropped or renamed -, with identityrefs of all four forms naming it). Every set: several fresh Modules under permuted load orders, all Go results must be equal, a second Process, a history on one Modules (part of the texts, Process, the rest, Process) and ToEntry-before-Process must end in the same result (identityref items name the identity OBJECT by the revision that declares it and carry the list seen through it); Go result = model result (under two map-order oracles); specification evaluated on the Go result. exhaustive refers to the small-graph space. distinct_nontrivial = distinct source sets whose Go result has an identity with a non-empty list or an identity/cycle error"
 	res.Distribution["by_generator"] = tags
 	res.Distribution["go_outcomes"] = outcomes
 	res.Distribution["seed_and_corpus_cases"] = nSeed
